@@ -37,7 +37,7 @@ def main():
         res["patched_demo_rcs"] = rcs
         res["patched_demo_out"] = r.stdout[-300:]
         if suite:
-            r = sh(["uv-suite", str(wt)], timeout=3600)
+            r = sh([str(Path(__file__).resolve().parent / "uv-suite"), str(wt)], timeout=3600)
             res["suite"] = r.stdout[-600:]
             failing = set(re.findall(r"not ok \d+ - (\S+)", r.stdout))
             res["suite_new_failures"] = sorted(failing - KNOWN_FLAKY)
